@@ -169,7 +169,7 @@ example : (∃ t, readFixed exExt exValid = .ok t) ∧ readFixed exExt exCounts 
   ⟨⟨_, exValid_read⟩, exCounts_fixed⟩
 
 /-- **Reusable**: after any sequence of rejected files the object is exactly a fresh one (so the `ndim != 0` test of
-    `read_fits` admits the next read), each rejected file got its verdict, and reading one more file `f` into the
+    `read_fits` lets through the next read), each rejected file got its verdict, and reading one more file `f` into the
     same object gives what reading `f` into a fresh object gives. -/
 theorem C07_reuse (E : Ext) (fs : List Fits) (f : Fits) (hrej : ∀ g ∈ fs, ∃ e, readFixed E g = .error e) :
     readSeq E Obj.empty fs = .ok (Obj.empty, fs.map (readFixed E)) ∧
@@ -448,6 +448,10 @@ theorem C07_bytes_framed (b : Bytes) (f : Fits) (h : decodeFits b = some f) :
   ⟨decodeFits_framed b f h, decodeFits_ne_nil b f h, framed_count b f (decodeFits_framed b f h),
    framed_size b f (decodeFits_framed b f h)⟩
 
+/-- non-vacuous: the bytes of a three-HDU file are accepted by the decoder -/
+example : decodeFits (encodeFits Codec.exampleFits) = some Codec.exampleFits :=
+  Codec.decode_encode Codec.exampleFits (by decide) Codec.exampleFits_ok
+
 /-- **Reading any bytes** (within the decoder's subset): for every byte string the decoder accepts, the guarded read
     of the decoded store ends either with a well-formed table in a complete, safely destructible object, or with an
     error and the empty object — what the driver's command `R` computes (`decodeFits`, then `readFixed`, then
@@ -462,5 +466,8 @@ theorem C07_bytes_total (E : Ext) (b : Bytes) (f : Fits) (h : decodeFits b = som
   cases hr : readFixed E f with
   | ok t => exact .inl ⟨t, rfl, (readGuarded_ok E f t hr).1, readFixed_wf E f t hr, (readGuarded_ok E f t hr).2⟩
   | error e => exact .inr ⟨e, rfl, readGuarded_error E f e hr, cleanup_after_readFixed E f e hr⟩
+
+example : ∃ f, decodeFits (encodeFits Codec.exampleFits) = some f :=
+  ⟨_, Codec.decode_encode Codec.exampleFits (by decide) Codec.exampleFits_ok⟩
 
 end PsV
